@@ -20,7 +20,8 @@ a big-step fuel interpreter `evalE / evalS` with CPython's behaviour on the frag
     (numeric across int/bool, structural on str, identity on objects), `+` (int/bool → int, str+str → str,
     anything else TypeError), `-` (int/bool → int), `<` (int/bool numerically, str lexicographically, else TypeError), `probe(k, e)` (records the value of `e`, returns None)
   * statements: `x: T = e`, `x = e`, `e.f = e'` (right-hand side first, as CPython does), expression statement,
-    `return e`, `if/else` (elif = nested), `while` with `break`/`continue`, sequencing, `pass`
+    `return e`, `if/else` (elif = nested), `while` with `break`/`continue`, sequencing, `pass`, `raise E()`,
+    `try/except (E…)/else/finally` (one handler clause naming the caught classes)
   * reading a local that was never assigned is `UnboundLocalError` (`Fail.unbound`) — not one of the failures
     the property speaks about.
 
@@ -80,6 +81,9 @@ inductive Stmt where
   | seq (a b : Stmt)
   | brk
   | cont
+  | raise (k : Nat)                       -- `raise E_k()` for a small fixed set of exception classes
+  /-- `try: b except (kinds…): h else: els finally: fin` (`hasFin = false`: no finally clause) -/
+  | tryS (b : Stmt) (kinds : List Nat) (h els fin : Stmt) (hasFin : Bool)
 deriving Repr, Inhabited
 
 structure FuncDef where
@@ -176,16 +180,26 @@ inductive Fail where
   | unbound                               -- UnboundLocalError
   | stuck                                 -- dangling reference / unknown function or class (shown impossible)
   | timeout                               -- out of fuel
+  | exc (k : Nat)                         -- an exception of class k (ValueError, IndexError, KeyError …) on its way up
 deriving DecidableEq, Repr, Inhabited
 
 abbrev Store := List (Option Val)
 
+/-- how a statement ends, with the locals at that point (a `finally` clause runs on every one of them) -/
 inductive Ctl where
   | normal (σ : Store)
-  | ret (v : Val)
+  | ret (v : Val) (σ : Store)
   | brk (σ : Store)                       -- `break` on its way to the enclosing loop
   | cont (σ : Store)                      -- `continue`
+  | exc (f : Fail) (σ : Store)            -- an exception (also TypeError & co.) raised in this frame, unwinding
 deriving DecidableEq, Repr, Inhabited
+
+def Ctl.store : Ctl → Store
+  | .normal σ => σ | .ret _ σ => σ | .brk σ => σ | .cont σ => σ | .exc _ σ => σ
+
+def Ctl.withStore : Ctl → Store → Ctl
+  | .normal _, σ => .normal σ | .ret v _, σ => .ret v σ | .brk _, σ => .brk σ | .cont _, σ => .cont σ
+  | .exc f _, σ => .exc f σ
 
 instance {ε α : Type} [DecidableEq ε] [DecidableEq α] : DecidableEq (Except ε α)
   | .ok a, .ok b => if h : a = b then isTrue (by rw [h]) else isFalse (by intro hc; cases hc; exact h rfl)
@@ -315,8 +329,35 @@ def initStore (fd : FuncDef) (args : List Val) : Store :=
 def callBody (ev : Store → Stmt → M Ctl) (fd : FuncDef) (args : List Val) : M Val :=
   M.bind (ev (initStore fd args) fd.body) fun
     | .normal _ => M.pure .none
-    | .ret v => M.pure v
+    | .ret v _ => M.pure v
+    | .exc f _ => M.fail f                -- propagates to the caller
     | _ => M.fail .stuck                  -- `break`/`continue` outside a loop: a SyntaxError in Python
+
+/-- evaluate an expression inside a statement: an exception raised by it (in a callee) becomes the
+    statement's outcome, with the locals as they are (expressions do not assign locals) -/
+def liftE {α : Type} (σ : Store) (m : M α) (f : α → M Ctl) : M Ctl := fun st =>
+  match m st with
+  | (.ok a, st') => f a st'
+  | (.error .timeout, st') => (.error .timeout, st')      -- not Python exceptions: nothing unwinds
+  | (.error .stuck, st') => (.error .stuck, st')
+  | (.error e, st') => (.ok (.exc e σ), st')
+
+/-- after the body of a try statement (`ev` = `evalS n P`): a caught exception runs the handler, normal completion
+    runs the else clause (not protected by the handler), everything else passes -/
+def tryStep (ev : Store → Stmt → M Ctl) (kinds : List Nat) (h els : Stmt) (c1 : Ctl) : M Ctl :=
+  match c1 with
+  | .exc (.exc k) σ1 => if kinds.contains k then ev σ1 h else M.pure (.exc (.exc k) σ1)
+  | .normal σ1 => ev σ1 els
+  | other => M.pure other
+
+/-- the finally clause runs on every outcome; if it completes, the pending outcome resumes with the locals it
+    left, otherwise its own return / raise / break wins -/
+def finStep (ev : Store → Stmt → M Ctl) (fin : Stmt) (hasFin : Bool) (c2 : Ctl) : M Ctl :=
+  if hasFin then
+    M.bind (ev c2.store fin) fun
+      | .normal σ3 => M.pure (c2.withStore σ3)
+      | other => M.pure other
+  else M.pure c2
 
 /-! ## The interpreter (structural recursion on the fuel; every recursive call uses one unit) -/
 
@@ -393,23 +434,23 @@ def evalS : Nat → Prog → Store → Stmt → M Ctl
   | n+1, P, σ, s =>
     match s with
     | .pass => M.pure (.normal σ)
-    | .decl x e => M.bind (evalE n P σ e) fun v => M.pure (.normal (σ.set x (some v)))
-    | .assign x e => M.bind (evalE n P σ e) fun v => M.pure (.normal (σ.set x (some v)))
-    | .infer x e => M.bind (evalE n P σ e) fun v => M.pure (.normal (σ.set x (some v)))
+    | .decl x e => liftE σ (evalE n P σ e) fun v => M.pure (.normal (σ.set x (some v)))
+    | .assign x e => liftE σ (evalE n P σ e) fun v => M.pure (.normal (σ.set x (some v)))
+    | .infer x e => liftE σ (evalE n P σ e) fun v => M.pure (.normal (σ.set x (some v)))
     | .setAttr o f e =>
-        M.bind (evalE n P σ e) fun v => M.bind (evalE n P σ o) fun r =>
-        M.bind (putAttr r f v) fun _ => M.pure (.normal σ)
-    | .expr e => M.bind (evalE n P σ e) fun _ => M.pure (.normal σ)
-    | .ret e => M.bind (evalE n P σ e) fun v => M.pure (.ret v)
-    | .ite c t e => M.bind (evalE n P σ c) fun v => if truthy v then evalS n P σ t else evalS n P σ e
+        liftE σ (evalE n P σ e) fun v => liftE σ (evalE n P σ o) fun r =>
+        liftE σ (putAttr r f v) fun _ => M.pure (.normal σ)
+    | .expr e => liftE σ (evalE n P σ e) fun _ => M.pure (.normal σ)
+    | .ret e => liftE σ (evalE n P σ e) fun v => M.pure (.ret v σ)
+    | .ite c t e => liftE σ (evalE n P σ c) fun v => if truthy v then evalS n P σ t else evalS n P σ e
     | .while c b =>
-        M.bind (evalE n P σ c) fun v =>
+        liftE σ (evalE n P σ c) fun v =>
         if truthy v then
           M.bind (evalS n P σ b) fun
             | .normal σ' => evalS n P σ' (.while c b)
             | .cont σ' => evalS n P σ' (.while c b)
             | .brk σ' => M.pure (.normal σ')
-            | .ret w => M.pure (.ret w)
+            | other => M.pure other
         else M.pure (.normal σ)
     | .seq a b =>
         M.bind (evalS n P σ a) fun
@@ -417,6 +458,10 @@ def evalS : Nat → Prog → Store → Stmt → M Ctl
           | other => M.pure other
     | .brk => M.pure (.brk σ)
     | .cont => M.pure (.cont σ)
+    | .raise k => M.pure (.exc (.exc k) σ)
+    | .tryS b kinds h els fin hasFin =>
+        M.bind (evalS n P σ b) fun c1 =>
+        M.bind (tryStep (evalS n P) kinds h els c1) (finStep (evalS n P) fin hasFin)
 end
 
 /-- call function `fd` on argument values -/
